@@ -1,7 +1,515 @@
 package main
 
+// (B) purity classifier tie: random js_ast trees are built directly, the
+// exported HelperContext.{Expr,Stmts,Class}CanBeRemovedIfUnused are called, and
+// the same trees are rendered as coq/C04/Purity.v [node] terms.
+
 import (
+	"fmt"
+	"strings"
+
+	"github.com/evanw/esbuild/internal/ast"
+	"github.com/evanw/esbuild/internal/helpers"
+	"github.com/evanw/esbuild/internal/js_ast"
 	. "github.com/evanw/esbuild/verifharness/hlib"
 )
 
-func tieClassifier(r *Rng, st *Stats, cf *CoqFile, n int) {}
+const nUnbound = 3 // identifiers 0,1,2 are unbound; Coq side: fun r => Nat.ltb r 3
+
+type tgen struct {
+	r    *Rng
+	ops  map[string]int
+	size int
+}
+
+func (g *tgen) n(k string) { g.ops[k]++ }
+
+func cb(b bool) string { return CBool(b) }
+
+func optC(ok bool, s string) string {
+	if ok {
+		return "(Some " + s + ")"
+	}
+	return "None"
+}
+
+func clist(xs []string) string { return "[" + strings.Join(xs, "; ") + "]" }
+
+func (g *tgen) ident(ref int) (js_ast.Expr, string) {
+	cr, kw := g.r.Chance(12), g.r.Chance(6)
+	return js_ast.Expr{Data: &js_ast.EIdentifier{Ref: ast.Ref{InnerIndex: uint32(ref)}, CanBeRemovedIfUnused: cr, MustKeepDueToWithStmt: kw}},
+		fmt.Sprintf("(EIdent %d%%nat %s %s)", ref, cb(cr), cb(kw))
+}
+
+func strLit(s string) (js_ast.Expr, string) {
+	u := helpers.StringToUTF16(s)
+	return js_ast.Expr{Data: &js_ast.EString{Value: u}}, "(EStr " + CU16(u) + ")"
+}
+
+var typeofStrings = []string{"undefined", "u", "object", "function", "undefine", "U", ""}
+
+// typeof guard shapes: (guard, guarded identifier), possibly deliberately mismatched
+func (g *tgen) guard() (js_ast.Expr, string, js_ast.Expr, string) {
+	r := g.r
+	ref := r.Intn(5)
+	tref := ref
+	if r.Chance(15) {
+		tref = r.Intn(5)
+	}
+	was := !r.Chance(12)
+	tid, tidc := js_ast.Expr{Data: &js_ast.EIdentifier{Ref: ast.Ref{InnerIndex: uint32(tref)}}}, fmt.Sprintf("(EIdent %d%%nat false false)", tref)
+	var tv js_ast.Expr = tid
+	tvc := tidc
+	if r.Chance(8) {
+		tv, tvc = js_ast.Expr{Data: &js_ast.EDot{Target: tid, Name: "x"}}, "(EDot "+tidc+" 120 false false)"
+	}
+	ty := js_ast.Expr{Data: &js_ast.EUnary{Op: js_ast.UnOpTypeof, Value: tv, WasOriginallyTypeofIdentifier: was}}
+	tyc := fmt.Sprintf("(EUnary UTypeof %s %s)", tvc, cb(was))
+	st, stc := strLit(r.Pick(typeofStrings))
+	ops := []js_ast.OpCode{js_ast.BinOpStrictEq, js_ast.BinOpStrictNe, js_ast.BinOpLooseEq, js_ast.BinOpLooseNe, js_ast.BinOpLt, js_ast.BinOpGt, js_ast.BinOpLe, js_ast.BinOpGe, js_ast.BinOpAdd}
+	opc := []string{"BStrictEq", "BStrictNe", "BLooseEq", "BLooseNe", "BLt", "BGt", "BLe", "BGe", "BAdd"}
+	k := r.Intn(len(ops))
+	l, lc, rr, rc := ty, tyc, st, stc
+	if r.Chance(35) {
+		l, lc, rr, rc = st, stc, ty, tyc
+	}
+	if r.Chance(6) {
+		rr, rc = l, lc
+	}
+	guard := js_ast.Expr{Data: &js_ast.EBinary{Op: ops[k], Left: l, Right: rr}}
+	gc := fmt.Sprintf("(EBinary %s %s %s)", opc[k], lc, rc)
+	id, idc := g.ident(ref)
+	if r.Chance(85) {
+		id, idc = js_ast.Expr{Data: &js_ast.EIdentifier{Ref: ast.Ref{InnerIndex: uint32(ref)}}}, fmt.Sprintf("(EIdent %d%%nat false false)", ref)
+	}
+	g.n("typeof-guard")
+	return guard, gc, id, idc
+}
+
+func (g *tgen) exprs(depth, max int) ([]js_ast.Expr, string) {
+	k := g.r.Intn(max + 1)
+	var es []js_ast.Expr
+	var cs []string
+	for i := 0; i < k; i++ {
+		e, c := g.expr(depth)
+		es = append(es, e)
+		cs = append(cs, c)
+	}
+	return es, clist(cs)
+}
+
+func (g *tgen) property(depth int, inClass bool) (js_ast.Property, string) {
+	r := g.r
+	kinds := []js_ast.PropertyKind{js_ast.PropertyField, js_ast.PropertyField, js_ast.PropertyMethod, js_ast.PropertyGetter, js_ast.PropertySetter, js_ast.PropertyAutoAccessor, js_ast.PropertySpread, js_ast.PropertyDeclareOrAbstract}
+	kc := []string{"KField", "KField", "KMethod", "KMethod", "KMethod", "KOtherKind", "KSpread", "KOtherKind"}
+	ki := r.Intn(5)
+	if r.Chance(12) {
+		ki = 5 + r.Intn(3)
+	}
+	if inClass && r.Chance(15) {
+		stmts, sc := g.stmts(depth-1, 2)
+		g.n("static-block")
+		return js_ast.Property{Kind: js_ast.PropertyClassStaticBlock, ClassStaticBlock: &js_ast.ClassStaticBlock{Block: js_ast.SBlock{Stmts: stmts}}},
+			fmt.Sprintf("(PProp KStaticBlock false false false false ENull None None %s)", sc)
+	}
+	p := js_ast.Property{Kind: kinds[ki]}
+	computed, static, dec, argdec := r.Chance(30), inClass && r.Chance(50), inClass && r.Chance(6), false
+	var keyc string
+	if computed {
+		p.Flags |= js_ast.PropertyIsComputed
+		p.Key, keyc = g.expr(depth - 1)
+	} else {
+		p.Key, keyc = strLit("k")
+	}
+	if static {
+		p.Flags |= js_ast.PropertyIsStatic
+	}
+	if dec {
+		p.Decorators = []js_ast.Decorator{{Value: js_ast.Expr{Data: js_ast.ENullShared}}}
+	}
+	hasV, hasI := r.Chance(70), inClass && r.Chance(25)
+	vc, ic := "", ""
+	if hasV {
+		if kinds[ki] != js_ast.PropertyField || r.Chance(15) {
+			fn := js_ast.Fn{}
+			if r.Chance(15) {
+				argdec = true
+				fn.Args = []js_ast.Arg{{Binding: js_ast.Binding{Data: &js_ast.BIdentifier{}}, Decorators: []js_ast.Decorator{{Value: js_ast.Expr{Data: js_ast.ENullShared}}}}}
+			}
+			p.ValueOrNil, vc = js_ast.Expr{Data: &js_ast.EFunction{Fn: fn}}, "EFunction"
+		} else {
+			p.ValueOrNil, vc = g.expr(depth - 1)
+		}
+	}
+	if hasI {
+		p.InitializerOrNil, ic = g.expr(depth - 1)
+	}
+	g.n("property")
+	return p, fmt.Sprintf("(PProp %s %s %s %s %s %s %s %s [])", kc[ki], cb(computed), cb(static), cb(dec), cb(argdec), keyc, optC(hasV, vc), optC(hasI, ic))
+}
+
+func (g *tgen) class(depth int) (js_ast.Class, string) {
+	r := g.r
+	c := js_ast.Class{UseDefineForClassFields: !r.Chance(20)}
+	dec := r.Chance(6)
+	if dec {
+		c.Decorators = []js_ast.Decorator{{Value: js_ast.Expr{Data: js_ast.ENullShared}}}
+	}
+	hasExt := r.Chance(35)
+	ec := ""
+	if hasExt {
+		c.ExtendsOrNil, ec = g.expr(depth - 1)
+	}
+	var pcs []string
+	for k := r.Intn(4); k > 0; k-- {
+		p, pc := g.property(depth, true)
+		c.Properties = append(c.Properties, p)
+		pcs = append(pcs, pc)
+	}
+	g.n("class")
+	return c, fmt.Sprintf("(CClass %s %s %s %s)", cb(dec), optC(hasExt, ec), clist(pcs), cb(c.UseDefineForClassFields))
+}
+
+func (g *tgen) expr(depth int) (js_ast.Expr, string) {
+	r := g.r
+	g.size++
+	mk := func(d js_ast.E) js_ast.Expr { return js_ast.Expr{Data: d} }
+	if depth <= 0 || r.Chance(30) {
+		switch r.Intn(16) {
+		case 0:
+			return mk(js_ast.ENullShared), "ENull"
+		case 1:
+			return mk(js_ast.EUndefinedShared), "EUndefined"
+		case 2:
+			b := r.Bool()
+			return mk(&js_ast.EBoolean{Value: b}), "(EBool " + cb(b) + ")"
+		case 3:
+			v := r.Intn(5)
+			return mk(&js_ast.ENumber{Value: float64(v)}), fmt.Sprintf("(ENum %d)", v)
+		case 4:
+			return strLit(r.Pick([]string{"", "a", "undefined", "u"}))
+		case 5:
+			return mk(&js_ast.EBigInt{Value: "5"}), "(EBigInt 5)"
+		case 6:
+			return mk(js_ast.EMissingShared), "EMissing"
+		case 7:
+			return mk(js_ast.EThisShared), "EThis"
+		case 8:
+			return mk(&js_ast.ERegExp{Value: "/x/"}), "ERegExp"
+		case 9:
+			return mk(&js_ast.EFunction{}), "EFunction"
+		case 10:
+			return mk(&js_ast.EArrow{}), "EArrow"
+		case 11:
+			return mk(&js_ast.EImportMeta{}), "EImportMeta"
+		case 12:
+			ref := r.Intn(6)
+			return mk(&js_ast.EImportIdentifier{Ref: ast.Ref{InnerIndex: uint32(ref)}}), fmt.Sprintf("(EImportIdent %d%%nat)", ref)
+		case 13:
+			return mk(&js_ast.EAwait{Value: mk(js_ast.ENullShared)}), "EOther"
+		default:
+			return g.ident(r.Intn(6))
+		}
+	}
+	d := depth - 1
+	switch k := r.Intn(100); {
+	case k < 8:
+		t, tc := g.expr(d)
+		cr, sym := r.Chance(30), r.Chance(15)
+		g.n("dot")
+		return mk(&js_ast.EDot{Target: t, Name: "x", CanBeRemovedIfUnused: cr, IsSymbolInstance: sym}), fmt.Sprintf("(EDot %s 120 %s %s)", tc, cb(cr), cb(sym))
+	case k < 12:
+		t, tc := g.expr(d)
+		i, ic := g.expr(d)
+		sym := r.Chance(25)
+		g.n("index")
+		return mk(&js_ast.EIndex{Target: t, Index: i, IsSymbolInstance: sym}), fmt.Sprintf("(EIndex %s %s %s)", tc, ic, cb(sym))
+	case k < 22:
+		var c, y, n js_ast.Expr
+		var cc, yc, nc string
+		if r.Chance(60) {
+			var id js_ast.Expr
+			var idc string
+			c, cc, id, idc = g.guard()
+			o, oc := g.expr(d)
+			if r.Bool() {
+				y, yc, n, nc = id, idc, o, oc
+			} else {
+				y, yc, n, nc = o, oc, id, idc
+			}
+		} else {
+			c, cc = g.expr(d)
+			y, yc = g.expr(d)
+			n, nc = g.expr(d)
+		}
+		g.n("if")
+		return mk(&js_ast.EIf{Test: c, Yes: y, No: n}), fmt.Sprintf("(EIf %s %s %s)", cc, yc, nc)
+	case k < 30:
+		var es []js_ast.Expr
+		var cs []string
+		for q := r.Intn(4); q > 0; q-- {
+			e, c := g.expr(d)
+			if r.Chance(25) {
+				e, c = mk(&js_ast.ESpread{Value: e}), "(ESpread "+c+")"
+				g.n("spread")
+			}
+			es = append(es, e)
+			cs = append(cs, c)
+		}
+		g.n("array")
+		return mk(&js_ast.EArray{Items: es}), "(EArray " + clist(cs) + ")"
+	case k < 38:
+		var ps []js_ast.Property
+		var cs []string
+		for q := r.Intn(4); q > 0; q-- {
+			p, c := g.property(d, false)
+			ps = append(ps, p)
+			cs = append(cs, c)
+		}
+		g.n("object")
+		return mk(&js_ast.EObject{Properties: ps}), "(EObject " + clist(cs) + ")"
+	case k < 44:
+		t, tc := g.expr(d)
+		as, ac := g.exprs(d, 3)
+		pure := r.Chance(50)
+		g.n("call")
+		return mk(&js_ast.ECall{Target: t, Args: as, CanBeUnwrappedIfUnused: pure}), fmt.Sprintf("(ECall %s %s %s)", tc, ac, cb(pure))
+	case k < 48:
+		t, tc := g.expr(d)
+		as, ac := g.exprs(d, 3)
+		pure := r.Chance(50)
+		g.n("new")
+		return mk(&js_ast.ENew{Target: t, Args: as, CanBeUnwrappedIfUnused: pure}), fmt.Sprintf("(ENew %s %s %s)", tc, ac, cb(pure))
+	case k < 60:
+		ops := []js_ast.OpCode{js_ast.UnOpPos, js_ast.UnOpNeg, js_ast.UnOpCpl, js_ast.UnOpNot, js_ast.UnOpVoid, js_ast.UnOpTypeof, js_ast.UnOpDelete, js_ast.UnOpPreInc}
+		oc := []string{"UPos", "UNeg", "UCpl", "UNot", "UVoid", "UTypeof", "UDelete", "UIncDec"}
+		i := r.Intn(len(ops))
+		v, vc := g.expr(d)
+		was := ops[i] == js_ast.UnOpTypeof && r.Chance(60)
+		g.n("unary:" + oc[i])
+		return mk(&js_ast.EUnary{Op: ops[i], Value: v, WasOriginallyTypeofIdentifier: was}), fmt.Sprintf("(EUnary %s %s %s)", oc[i], vc, cb(was))
+	case k < 82:
+		ops := []js_ast.OpCode{js_ast.BinOpStrictEq, js_ast.BinOpStrictNe, js_ast.BinOpLooseEq, js_ast.BinOpLooseNe, js_ast.BinOpLt, js_ast.BinOpGt, js_ast.BinOpLe, js_ast.BinOpGe,
+			js_ast.BinOpComma, js_ast.BinOpNullishCoalescing, js_ast.BinOpLogicalOr, js_ast.BinOpLogicalAnd, js_ast.BinOpAdd, js_ast.BinOpSub, js_ast.BinOpMul, js_ast.BinOpShl, js_ast.BinOpIn, js_ast.BinOpInstanceof,
+			js_ast.BinOpAssign, js_ast.BinOpAddAssign, js_ast.BinOpSubAssign, js_ast.BinOpLogicalOrAssign, js_ast.BinOpNullishCoalescingAssign, js_ast.BinOpPow, js_ast.BinOpBitwiseAnd}
+		oc := []string{"BStrictEq", "BStrictNe", "BLooseEq", "BLooseNe", "BLt", "BGt", "BLe", "BGe",
+			"BComma", "BNullish", "BOr", "BAnd", "BAdd", "BArith", "BArith", "BArith", "BIn", "BInstanceof",
+			"BAssign", "BAddAssign", "BArithAssign", "BLogicalAssign", "BLogicalAssign", "BArith", "BArith"}
+		i := r.Intn(len(ops))
+		var l, rr js_ast.Expr
+		var lc, rc string
+		if (oc[i] == "BOr" || oc[i] == "BAnd") && r.Chance(60) {
+			l, lc, rr, rc = g.guard()
+		} else {
+			l, lc = g.expr(d)
+			rr, rc = g.expr(d)
+		}
+		g.n("binary:" + oc[i])
+		return mk(&js_ast.EBinary{Op: ops[i], Left: l, Right: rr}), fmt.Sprintf("(EBinary %s %s %s)", oc[i], lc, rc)
+	case k < 88:
+		hasTag, pure := r.Chance(30), r.Chance(30)
+		var tag js_ast.Expr
+		tagc := ""
+		if hasTag {
+			tag, tagc = g.expr(d)
+		}
+		var parts []js_ast.TemplatePart
+		var cs []string
+		for q := r.Intn(3); q > 0; q-- {
+			e, c := g.expr(d)
+			parts = append(parts, js_ast.TemplatePart{Value: e})
+			cs = append(cs, c)
+		}
+		g.n("template")
+		return mk(&js_ast.ETemplate{TagOrNil: tag, Parts: parts, CanBeUnwrappedIfUnused: pure}), fmt.Sprintf("(ETemplate %s %s %s)", optC(hasTag, tagc), cb(pure), clist(cs))
+	case k < 93:
+		c, cc := g.class(d)
+		return mk(&js_ast.EClass{Class: c}), "(EClass " + cc + ")"
+	case k < 96:
+		v, vc := g.expr(d)
+		flag := r.Bool()
+		var fl js_ast.AnnotationFlags
+		if flag {
+			fl = js_ast.CanBeRemovedIfUnusedFlag
+		}
+		g.n("annotation")
+		return mk(&js_ast.EAnnotation{Value: v, Flags: fl}), fmt.Sprintf("(EAnnotation %s %s)", vc, cb(flag))
+	default:
+		v, vc := g.expr(d)
+		g.n("inlined-enum")
+		return mk(&js_ast.EInlinedEnum{Value: v}), "(EInlinedEnum " + vc + ")"
+	}
+}
+
+func (g *tgen) stmts(depth, max int) ([]js_ast.Stmt, string) {
+	k := g.r.Intn(max + 1)
+	var ss []js_ast.Stmt
+	var cs []string
+	for i := 0; i < k; i++ {
+		s, c := g.stmt(depth)
+		ss = append(ss, s)
+		cs = append(cs, c)
+	}
+	return ss, clist(cs)
+}
+
+func (g *tgen) stmt(depth int) (js_ast.Stmt, string) {
+	r := g.r
+	mk := func(d js_ast.S) js_ast.Stmt { return js_ast.Stmt{Data: d} }
+	d := depth - 1
+	if d < 0 {
+		d = 0
+	}
+	switch k := r.Intn(100); {
+	case k < 6:
+		return mk(&js_ast.SFunction{}), "SFunction"
+	case k < 9:
+		return mk(js_ast.SEmptyShared), "SEmpty"
+	case k < 12:
+		return mk(&js_ast.SImport{}), "SImport"
+	case k < 15:
+		return mk(&js_ast.SExportFrom{}), "SExportFrom"
+	case k < 19:
+		return mk(&js_ast.SExportClause{}), "SExportClause"
+	case k < 23:
+		return mk(&js_ast.SDebugger{}), "SOther"
+	case k < 31:
+		c, cc := g.class(d)
+		return mk(&js_ast.SClass{Class: c}), "(SClass " + cc + ")"
+	case k < 37:
+		has := r.Chance(70)
+		var v js_ast.Expr
+		vc := ""
+		if has {
+			v, vc = g.expr(d)
+		}
+		return mk(&js_ast.SReturn{ValueOrNil: v}), "(SReturn " + optC(has, vc) + ")"
+	case k < 55:
+		v, vc := g.expr(d)
+		from := r.Chance(10)
+		g.n("stmt:expr")
+		return mk(&js_ast.SExpr{Value: v, IsFromClassOrFnThatCanBeRemovedIfUnused: from}), fmt.Sprintf("(SExpr %s %s)", vc, cb(from))
+	case k < 78:
+		kinds := []js_ast.LocalKind{js_ast.LocalVar, js_ast.LocalLet, js_ast.LocalConst, js_ast.LocalUsing, js_ast.LocalAwaitUsing}
+		kc := []string{"LVar", "LLet", "LConst", "LUsing", "LAwaitUsing"}
+		ki := r.Intn(3)
+		if r.Chance(20) {
+			ki = 3 + r.Intn(2)
+		}
+		var decls []js_ast.Decl
+		var cs []string
+		for q := r.Range(1, 2); q > 0; q-- {
+			var b js_ast.Binding
+			var bc string
+			switch r.Intn(6) {
+			case 0:
+				b, bc = js_ast.Binding{Data: &js_ast.BObject{}}, "BOtherBinding"
+			case 1, 2:
+				var items []js_ast.ArrayBinding
+				var ics []string
+				for w := r.Intn(3); w > 0; w-- {
+					var ib js_ast.Binding
+					var ibc string
+					switch r.Intn(5) {
+					case 0:
+						ib, ibc = js_ast.Binding{Data: js_ast.BMissingShared}, "BMissing"
+					case 1:
+						ib, ibc = js_ast.Binding{Data: &js_ast.BArray{}}, "(BArray [])"
+					default:
+						ib, ibc = js_ast.Binding{Data: &js_ast.BIdentifier{}}, "BIdent"
+					}
+					hasD := r.Chance(40)
+					var dv js_ast.Expr
+					dc := ""
+					if hasD {
+						dv, dc = g.expr(d)
+					}
+					items = append(items, js_ast.ArrayBinding{Binding: ib, DefaultValueOrNil: dv})
+					ics = append(ics, fmt.Sprintf("(BItem %s %s)", ibc, optC(hasD, dc)))
+				}
+				b, bc = js_ast.Binding{Data: &js_ast.BArray{Items: items}}, "(BArray "+clist(ics)+")"
+			default:
+				b, bc = js_ast.Binding{Data: &js_ast.BIdentifier{}}, "BIdent"
+			}
+			hasV := r.Chance(80)
+			var v js_ast.Expr
+			vc := ""
+			if hasV {
+				if r.Chance(30) {
+					es, ec := g.exprs(d, 2)
+					v, vc = js_ast.Expr{Data: &js_ast.EArray{Items: es}}, "(EArray "+ec+")"
+				} else {
+					v, vc = g.expr(d)
+				}
+			}
+			decls = append(decls, js_ast.Decl{Binding: b, ValueOrNil: v})
+			cs = append(cs, fmt.Sprintf("(DDecl %s %s)", bc, optC(hasV, vc)))
+		}
+		g.n("stmt:local")
+		return mk(&js_ast.SLocal{Kind: kinds[ki], Decls: decls}), fmt.Sprintf("(SLocal %s %s)", kc[ki], clist(cs))
+	case k < 86:
+		bs, bc := g.stmts(d, 2)
+		hasF := r.Chance(50)
+		t := &js_ast.STry{Block: js_ast.SBlock{Stmts: bs}}
+		fc := "[]"
+		if hasF {
+			var fs []js_ast.Stmt
+			fs, fc = g.stmts(d, 2)
+			t.Finally = &js_ast.Finally{Block: js_ast.SBlock{Stmts: fs}}
+		}
+		if !hasF || r.Bool() {
+			cs, _ := g.stmts(d, 1) // the catch clause is not inspected by the classifier
+			t.Catch = &js_ast.Catch{Block: js_ast.SBlock{Stmts: cs}}
+		}
+		g.n("stmt:try")
+		return mk(t), fmt.Sprintf("(STry %s %s %s)", bc, cb(hasF), fc)
+	case k < 91:
+		v, vc := g.expr(d)
+		return mk(&js_ast.SExportDefault{Value: js_ast.Stmt{Data: &js_ast.SExpr{Value: v}}}), "(SExportDefaultExpr " + vc + ")"
+	case k < 94:
+		return mk(&js_ast.SExportDefault{Value: js_ast.Stmt{Data: &js_ast.SFunction{}}}), "SExportDefaultFn"
+	case k < 97:
+		c, cc := g.class(d)
+		return mk(&js_ast.SExportDefault{Value: js_ast.Stmt{Data: &js_ast.SClass{Class: c}}}), "(SExportDefaultClass " + cc + ")"
+	default:
+		return mk(&js_ast.SIf{Test: js_ast.Expr{Data: js_ast.ENullShared}, Yes: js_ast.Stmt{Data: js_ast.SEmptyShared}}), "SOther"
+	}
+}
+
+func tieClassifier(r *Rng, st *Stats, cf *CoqFile, n int) {
+	g := &tgen{r: r, ops: map[string]int{}}
+	ctx := js_ast.MakeHelperContext(func(ref ast.Ref) bool { return ref.InnerIndex < nUnbound })
+	var exprItems, stmtItems, classItems []string
+	for i := 0; i < n; i++ {
+		e, c := g.expr(r.Range(1, 4))
+		got := ctx.ExprCanBeRemovedIfUnused(e)
+		exprItems = append(exprItems, fmt.Sprintf("(%s, %s)", c, cb(got)))
+		st.Note("classifier-expr", c, got)
+	}
+	for i := 0; i < n/3; i++ {
+		ss, c := g.stmts(r.Range(1, 3), 3)
+		keep, ret := r.Chance(30), r.Chance(30)
+		var flags js_ast.StmtsCanBeRemovedIfUnusedFlags
+		if keep {
+			flags |= js_ast.KeepExportClauses
+		}
+		if ret {
+			flags |= js_ast.ReturnCanBeRemovedIfUnused
+		}
+		got := ctx.StmtsCanBeRemovedIfUnused(ss, flags)
+		stmtItems = append(stmtItems, fmt.Sprintf("(%s, %s, %s, %s)", cb(keep), cb(ret), c, cb(got)))
+		st.Note("classifier-stmts", c+fmt.Sprint(keep, ret), got)
+	}
+	for i := 0; i < n/4; i++ {
+		cl, c := g.class(r.Range(1, 3))
+		got := ctx.ClassCanBeRemovedIfUnused(cl)
+		classItems = append(classItems, fmt.Sprintf("(%s, %s)", c, cb(got)))
+		st.Note("classifier-class", c, got)
+	}
+	for k, v := range g.ops {
+		st.Histogram["tree:"+k] += v
+	}
+	cf.AddCases("expr_cases", "node * bool", "check_expr", exprItems)
+	cf.AddCases("stmts_cases", "bool * bool * list node * bool", "check_stmts", stmtItems)
+	cf.AddCases("class_cases", "node * bool", "check_class", classItems)
+}
